@@ -194,5 +194,19 @@ class VLoop(asyncio.BaseEventLoop):
             except Exception:
                 pass
 
+    def abandon(self) -> None:
+        """The process 'crashed': nothing more runs on this loop - no cancellation, no finally blocks, no callbacks."""
+        try:
+            for t in asyncio.all_tasks(self):
+                t._log_destroy_pending = False  # type: ignore[attr-defined]
+            self._ready.clear()
+            self._scheduled.clear()
+        finally:
+            self.uninstall()
+            try:
+                self._closed = True
+            except Exception:
+                pass
+
     def __del__(self, _warn: Any = None) -> None:  # silence "unclosed loop" warnings
         pass
